@@ -249,12 +249,10 @@ pub fn run_node(w: &WorldDir, bins: &Bins, spec: &NodeSpec) -> NodeRun {
     let _ = std::fs::create_dir_all(&cwd); // a minimised op list may have lost the mkdir
 
     let mut plan = format!("root={};trace={};hashseed={}", root_s, w.trace().display(), spec.hashseed);
-    if let Some(c) = spec.clock {
-        plan.push_str(&format!(";clock={c}"));
-    }
-    if let Some(p) = spec.pid {
-        plan.push_str(&format!(";pid={p}"));
-    }
+    // the simulator always owns the wall clock and the pid: a node never sees the real ones
+    // (defaults: 2020-09-13 and pid 4242; C20 scenarios move both)
+    plan.push_str(&format!(";clock={}", spec.clock.unwrap_or(1_600_000_000)));
+    plan.push_str(&format!(";pid={}", spec.pid.unwrap_or(4242)));
     for f in &spec.faults {
         plan.push_str(";at=");
         plan.push_str(f);
